@@ -164,6 +164,23 @@ def gen(ctx):
                 if sc[j] >= m - 1:
                     lab[j] = 1
         cases.append(_tdc_case(sc, lab, rng.random() < 0.5, tags=("random", shape, f"tie={tie}")))
+    # strictly monotone rescalings to extreme magnitudes: every value is an exactly representable double, so the
+    # order and the tie pattern are those of the base vector (tiny magnitudes, adjacent doubles, huge offsets, subnormals)
+    rng = ctx.sub("rescaled")
+    maps = [("x*2^-60", lambda x: x * 2.0 ** -60), ("x*2^-100", lambda x: x * 2.0 ** -100), ("x*2^-1000", lambda x: x * 2.0 ** -1000),
+            ("x*2^-1070", lambda x: x * 2.0 ** -1070), ("x*2^60", lambda x: x * 2.0 ** 60), ("x*2^900", lambda x: x * 2.0 ** 900),
+            ("1+x*2^-52", lambda x: 1.0 + x * 2.0 ** -52), ("-2-x*2^-51", lambda x: -2.0 + x * 2.0 ** -51),
+            ("2^52+x", lambda x: 2.0 ** 52 + x), ("x*2^-52", lambda x: x * 2.0 ** -52)]
+    for k in range(240 if ctx.thorough else 60):
+        n = rng.randint(2, 60)
+        levels = rng.randint(2, n)
+        base = [rng.randrange(-levels // 2, levels) for _ in range(n)]
+        lab = [1 if rng.random() < 0.6 else 0 for _ in range(n)]
+        name, f = maps[k % len(maps)]
+        sc = [f(float(x)) for x in base]
+        assert len(set(sc)) == len(set(base)), name
+        via = "qfs" if rng.random() < 0.2 else "tdc"
+        cases.append(_tdc_case(sc, lab, True if via == "qfs" else rng.random() < 0.5, "bool", "float64", via, tags=("rescaled", name)))
     # malformed
     rng = ctx.sub("malformed")
     for k in range(60):
